@@ -52,10 +52,10 @@ Definition mem_str (x : string) (l : list string) : bool := existsb (String.eqb 
 
 Definition last_component (p : path) : string := last p "".
 
-(* walk_graphql_files: `if file_.suffix in extensions` — directories are NOT excluded.
-   [fx = true] is the code with fixes/C19-walk-files-only.diff (`file_.is_file() and ...`). *)
-Definition selected (fx : bool) (e : entry) : bool :=
-  (negb fx || negb (e_isdir e)) && mem_str (suffix (last_component (e_path e))) extensions.
+(* walk_graphql_files: `if file_.suffix in extensions and file_.is_file()` (since 6530558 a
+   directory named like a schema file is no longer yielded) *)
+Definition selected (e : entry) : bool :=
+  negb (e_isdir e) && mem_str (suffix (last_component (e_path e))) extensions.
 
 (* ---- sorted(paths): PurePath.__lt__ compares the lists of components, each as a Python
         str (code points = UTF-8 byte order) ---- *)
@@ -81,8 +81,8 @@ Definition sort_by {X} (leb : X -> X -> bool) (l : list X) : list X :=
 
 Definition entry_leb (a b : entry) : bool := path_leb (e_path a) (e_path b).
 
-Definition walk_sorted (fx : bool) (tree : list entry) : list entry :=
-  sort_by entry_leb (filter (selected fx) tree).
+Definition walk_sorted (tree : list entry) : list entry :=
+  sort_by entry_leb (filter selected tree).
 
 (* ---- read_graphql_file ---- *)
 Inductive lerr :=
@@ -115,8 +115,8 @@ Fixpoint join_nl (l : list string) : string :=
   end.
 
 (* load_graphql_files_from_path for a directory *)
-Definition load_dir (fx : bool) (tree : list entry) : lerr + string :=
-  match read_all (walk_sorted fx tree) with
+Definition load_dir (tree : list entry) : lerr + string :=
+  match read_all (walk_sorted tree) with
   | inl x => inl x
   | inr ts => inr (join_nl ts)
   end.
@@ -128,19 +128,17 @@ Definition load_file (e : entry) : lerr + string := read_file e.
         concatenation of the per-file definition lists (graphql-core, tied by K2) ---- *)
 Definition defs_of (e : entry) : list defn := match e_defs e with Some ds => ds | None => [] end.
 
-Definition loaded_defs (fx : bool) (tree : list entry) : list defn :=
-  flat_map defs_of (walk_sorted fx tree).
+Definition loaded_defs (tree : list entry) : list defn :=
+  flat_map defs_of (walk_sorted tree).
 
 Definition readable (e : entry) : bool :=
   negb (e_isdir e) && match e_defs e with Some _ => true | None => false end.
-Definition all_readable (fx : bool) (tree : list entry) : bool :=
-  forallb readable (filter (selected fx) tree).
+Definition all_readable (tree : list entry) : bool :=
+  forallb readable (filter selected tree).
 
-(* "every FILE of the tree that carries one of the extensions is a parsable document", and the
-   defect class of F19-dir-suffix: some directory carries one of the extensions *)
-Definition files_readable (fx : bool) (tree : list entry) : bool :=
-  forallb (fun e => e_isdir e || negb (selected fx e) || readable e) tree.
-Definition suffixed_dir (tree : list entry) : bool := existsb (fun e => e_isdir e && selected false e) tree.
+(* "every FILE of the tree that carries one of the extensions is a parsable document" *)
+Definition files_readable (tree : list entry) : bool :=
+  forallb (fun e => e_isdir e || negb (selected e) || readable e) tree.
 
 (* ---- build_ast_schema(assume_valid=True), as far as C19 needs it: the map from type name to
         body, extensions appended in document order, a later duplicate definition replacing
@@ -199,15 +197,15 @@ Definition run_loader (e : sexp) : sexp :=
       match dList dStr p, dList dStr q with
       | Some p, Some q => sB (path_leb p q)
       | _, _ => sErr "path" end
-  | L [A "walk"; fx; es] =>
-      match dB fx, dList entry_of_sexp es with
-      | Some fx, Some t => L (map (fun x => path_to_sexp (e_path x)) (walk_sorted fx t))
-      | _, _ => sErr "entries" end
-  | L [A "load-dir"; fx; es] =>
-      match dB fx, dList entry_of_sexp es with
-      | Some fx, Some t => L [lres_to_sexp (load_dir fx t);
-                     L (map (fun d => L [sB (d_ext d); A (d_name d)]) (loaded_defs fx t))]
-      | _, _ => sErr "entries" end
+  | L [A "walk"; es] =>
+      match dList entry_of_sexp es with
+      | Some t => L (map (fun x => path_to_sexp (e_path x)) (walk_sorted t))
+      | None => sErr "entries" end
+  | L [A "load-dir"; es] =>
+      match dList entry_of_sexp es with
+      | Some t => L [lres_to_sexp (load_dir t);
+                     L (map (fun d => L [sB (d_ext d); A (d_name d)]) (loaded_defs t))]
+      | None => sErr "entries" end
   | L [A "load-file"; x] =>
       match entry_of_sexp x with
       | Some t => lres_to_sexp (load_file t)
@@ -216,9 +214,9 @@ Definition run_loader (e : sexp) : sexp :=
       match dList defn_of_sexp ds with
       | Some ds => L (map (fun nb => body_to_sexp (fst nb) (snd nb)) (type_map ds))
       | None => sErr "defs" end
-  | L [A "tree-type-map"; fx; es] =>
-      match dB fx, dList entry_of_sexp es with
-      | Some fx, Some t => L (map (fun nb => body_to_sexp (fst nb) (snd nb)) (type_map (loaded_defs fx t)))
-      | _, _ => sErr "entries" end
+  | L [A "tree-type-map"; es] =>
+      match dList entry_of_sexp es with
+      | Some t => L (map (fun nb => body_to_sexp (fst nb) (snd nb)) (type_map (loaded_defs t)))
+      | None => sErr "entries" end
   | _ => sErr "loader: bad command"
   end.
